@@ -83,6 +83,9 @@ NEAR = [
     'def e: return 1 weighted 1', 'def e():\n  return 1', 'experiment e { return 1 weighted 1 }', '{ "def": "e" }', '', ' ', '\n', '// only a comment', '/* only a comment */',
 ]  # fmt: skip
 
+POISON = ['def e { return "a" weighted 1 } /* never closed', 'def e { /* never closed return "a" weighted 1 }', 'def e { return "a" weighted 1 @ }',
+          'def e { return "a" weighted }', 'def e { salt: "unterminated }', 'def e { return "a" weighted 1 } // tail /*']
+
 ALPHA = list("ax1 \n\"'/*-.=><!(){},:;@\\#") + ["if", "in"]  # 26 character classes
 EMBED = ['def e {{ return "a" weighted 1{0}}}', 'def e {{ if x{0}== 1 {{ return 1 weighted 1 }} }}', '{0}def e {{ return 1 weighted 2 }}']
 
@@ -114,6 +117,19 @@ def _work(units):
                 for tpl in EMBED:
                     judge(acc, "lexseq", tpl.format(s))
                     judge(acc, "lexseq-sp", tpl.format(" " + s + " "))
+        elif u[0] == "after":
+            # rejection must not depend on what was compiled before in this process
+            _, poison = u
+            todo = [("after-near", t) for t in NEAR]
+            for j in em.JUNK + ["@ ; = . return return }", "x", "1 2 3"]:
+                for tail in ('def second { return 1 weighted 1 }', 'def e { splitters: u return "a" weighted 1, "b" weighted 1 }'):
+                    todo += [("after-junk", j + " */ " + tail), ("after-junk", j + " " + tail), ("after-junk", j + "\n*/\n" + tail)]
+            for kind, t in todo:
+                impl.build(poison)  # the history: one compile of the poison text immediately before
+                judge(acc, kind, t)
+            for v in acc.viol:
+                if v["kind"].startswith("reject:after") and "before" not in v:
+                    v["before"] = poison
         elif u[0] == "texts":
             for kind, text in u[1]:
                 judge(acc, kind, text)
@@ -210,6 +226,7 @@ def units(tier):
     for k in range(1, m + 1):
         out += [("lexseq", c, k) for c in ALPHA]
     out.append(("texts", [("near-miss", t) for t in NEAR]))
+    out += [("after", p) for p in POISON]
     texts, cells = lrcell_texts()
     out += [("texts", texts[i : i + 400]) for i in range(0, len(texts), 400)]
     return out, cells
@@ -229,6 +246,8 @@ def run(res, tier):
 
 def replay(data):
     text = data["text"]
+    if "before" in data:
+        impl.build(data["before"])
     cl = rp.classify(text)
     if cl[0] != "reject":
         return False, f"reference no longer rejects: {cl[0]}"
